@@ -808,7 +808,10 @@ def build_oracles(names):
 
 
 def run_fixed(stg, driver, upath, steps, oracle_names, tag):
-    return hist.run_scenario(stg, driver, upath, steps, oracles=build_oracles(oracle_names), tag=tag)
+    # a scripted scenario is played to its end on the real repository even after the model and the
+    # implementation disagreed (only the first disagreement is recorded): the direct oracles judge
+    # the steps that follow, where the consequence of a divergence often shows
+    return hist.run_scenario(stg, driver, upath, steps, oracles=build_oracles(oracle_names), tag=tag, keep_going=True)
 
 
 def corpus_files():
